@@ -66,13 +66,16 @@ static int fx_trap_kind;
 static void fx_trap_on(void)
 {
     if (!fx_trap_kind) { return; }
-    vf_count_dyn("fenv-library-call-with-invalid-and-divbyzero-unmasked", 1);
+    vf_count_dyn("fenv-library-call-watched-for-invalid-and-divbyzero", 1);
     feclearexcept(FE_ALL_EXCEPT);
-    feenableexcept(FE_INVALID | FE_DIVBYZERO);
 }
 static void fx_trap_off(void)
 {
-    if (fx_trap_kind) { fedisableexcept(FE_INVALID | FE_DIVBYZERO); }
+    /* RECORDED, NOT JUDGED. A first version unmasked the two exceptions around the call (a SIGFPE inside the library was a violation). That asks more than C08
+       states: ISO C's default is non-stop arithmetic, trapping is a glibc extension of the caller, and code that computes sqrt(pivot) and then tests the result
+       reports failure correctly in every standard environment - the same reason UBSan's float-divide-by-zero is not enabled (DESIGN 2.2). The count says how
+       often the library raised FE_INVALID / FE_DIVBYZERO on inputs where the pinned code raises neither (0 on the pinned tree). */
+    if (fx_trap_kind && fetestexcept(FE_INVALID | FE_DIVBYZERO)) { vf_count_dyn("fenv-library-raised-invalid-or-divbyzero", 1); }
 }
 #define FX_TRAP_ON() fx_trap_on();
 #define FX_TRAP_OFF() fx_trap_off();
